@@ -12,7 +12,7 @@ from .c11 import cli_argv
 PROPERTY = "C05"
 API_DEVS = ["http500", "http500", "undocumented", "marker", "http503"]
 NET_DEVS = ["connect", "reset", "read_timeout", "chunked"]
-STAGES = ["traversal", "construction", "generation", "serialization", "transport", "check", "event_handler"]
+STAGES = ["traversal", "construction", "setup", "generation", "serialization", "transport", "check", "event_handler"]
 
 
 def gen_desc(verif_seed: int, i: int, tier: str = "quick") -> dict:
@@ -42,8 +42,22 @@ def gen_desc(verif_seed: int, i: int, tier: str = "quick") -> dict:
         if stage == "event_handler":
             f["on"] = rng.choice(["ScenarioFinished", "ScenarioStarted", "PhaseFinished", "NonFatalError"])
         fl.append(f)
+    r2 = random.Random(rs ^ 0xA07)
+    if sub == "api" and r2.random() < 0.3:
+        # an API that declares authentication but does not enforce it on one operation: ignored_auth (a check that sends and
+        # records requests of its own) must report it, with the probe request that showed it
+        key = "key-%d" % r2.randrange(10**6)
+        udesc["security"] = {"scheme": "apikey", "header": "X-API-Key", "expected": {"header": "X-API-Key", "value": key}}
+        for c in udesc["collections"]:
+            c["secured"] = list(c["kinds"])
+        cfg["headers"] = {"X-API-Key": key}
+        cfg["checks"] = sorted(set(cfg["checks"]) | {"ignored_auth"})
+        victims = r2.sample(gen.op_keys(udesc), k=min(2, len(gen.op_keys(udesc))))
+        behaviour = behaviour + [{"op": v_, "trigger": {"always": True}, "deviation": "auth_not_enforced"} for v_ in victims]
     if entry == "cli":
         cfg["argv"] = cli_argv(cfg, udesc)
+        for hk, hv in (cfg.get("headers") or {}).items():
+            cfg["argv"] += ["-H", f"{hk}: {hv}"]
         if rng.random() < 0.5:
             cfg["argv"] += ["--report", rng.choice(["vcr", "har", "vcr,har"])]
     fault_free_schedule = sub == "clean" or rng.random() < 0.2
@@ -86,7 +100,7 @@ ASSUMPTIONS = [
     "a module-attribute patch of create_test; one per run",
     "pre-emption only at intercepted primitives and whitelisted repository lines",
 ]
-EXPECTED_PROBES = ["http500", "undocumented", "marker", "internal", "network_error", "q_timeout", "stall"]
+EXPECTED_PROBES = ["http500", "undocumented", "marker", "auth_not_enforced", "internal", "network_error", "q_timeout", "stall"]
 
 
 def fired_faults(desc: dict, res: dict) -> dict:
